@@ -79,7 +79,8 @@ pub fn encode_response(adu: ResponseAdu, buf: &mut [u8]) -> Result<usize> {
     if buf.len() < len + 7 {
         return Err(Error::BufferSize);
     }
-    BigEndian::write_u16(&mut buf[4..6], (len + 1) as u16);
+    let m_length = u16::try_from(len + 1).map_err(|_| Error::BufferSize)?;
+    BigEndian::write_u16(&mut buf[4..6], m_length);
 
     Ok(len + 7)
 }
@@ -96,7 +97,8 @@ pub fn encode_request(adu: RequestAdu, buf: &mut [u8]) -> Result<usize> {
     if buf.len() < len + 7 {
         return Err(Error::BufferSize);
     }
-    BigEndian::write_u16(&mut buf[4..6], (len + 1) as u16);
+    let m_length = u16::try_from(len + 1).map_err(|_| Error::BufferSize)?;
+    BigEndian::write_u16(&mut buf[4..6], m_length);
 
     Ok(len + 7)
 }
